@@ -60,6 +60,11 @@ pub fn to_schema_mut(raw: &RawSchema) -> SchemaMut {
 /// describe the edited graph, not the document it once came from.
 pub fn to_schema_mut_edited(raw: &RawSchema) -> SchemaMut {
 	let mut parsed: SchemaMut = "\"null\"".parse().expect("the document \"null\" parses");
+	// everything the schema can be asked before the edit is asked (fingerprint, JSON, a clone, a
+	// frozen copy): whatever such a call may cache must not outlive the edit
+	let _ = parsed.canonical_form_rabin_fingerprint();
+	let _ = serde_json::to_string(&parsed);
+	let _ = parsed.clone().freeze();
 	let mut built = to_schema_mut(raw);
 	std::mem::swap(parsed.nodes_mut(), built.nodes_mut());
 	parsed
